@@ -731,6 +731,11 @@ const SIZES06: [u32; 20] = [10, 6, 5, 4, 3, 8, 4, 15, 22, 5, 17, 3, 2, 2, 2, 2, 
 fn osz06() -> Value {
     Value::Array(SIZES06.iter().enumerate().map(|(k, &s)| json!([k + 1, s])).collect())
 }
+fn osz06_zero() -> Value {
+    let mut v = osz06();
+    v.as_array_mut().unwrap().push(json!([63, 0]));
+    v
+}
 /// A random type with its item length: pre-agreed (1..20), explicit small, explicit >= 0x4000
 /// (numbers of UUID types at the raw level), >= 0x8000 (signed-key boundary), type 0.
 fn rnd_type(r: &mut StdRng, allow_high: bool) -> (u16, usize) {
@@ -740,7 +745,7 @@ fn rnd_type(r: &mut StdRng, allow_high: bool) -> (u16, usize) {
             (t, SIZES06[t as usize - 1] as usize)
         }
         5 | 6 => {
-            let t = r.gen_range(21..64u16);
+            let t = if r.gen_bool(0.3) { 63 } else { r.gen_range(21..64u16) };
             (t, (t % 7) as usize)
         }
         7 => {
@@ -856,7 +861,13 @@ fn drive_pair(r: &mut StdRng) -> Value {
         ints_total += len;
         b.insert(k, it);
     }
-    let osz = if r.gen_bool(0.8) { osz06() } else { json!([]) };
+    // size tables: the 0.6 table, the 0.6 table plus a data-less type with the pre-agreed size 0
+    // (type 63; outside what the reference can express), no table at all
+    let osz = match r.gen_range(0..10) {
+        0..=4 => osz06(),
+        5..=7 => osz06_zero(),
+        _ => json!([]),
+    };
     json!({"op": "pair", "A": a, "B": b.into_values().collect::<Vec<_>>(), "osz": osz})
 }
 fn rnd_uuid(r: &mut StdRng, pool: &mut Vec<Vec<i32>>) -> Vec<i32> {
@@ -891,7 +902,21 @@ fn drive_snap(r: &mut StdRng) -> Value {
         _ => r.gen_range(200..1100),
     };
     let mut upool = Vec::new();
-    let adds = rnd_adds(r, n, &mut upool, true);
+    let mut adds = rnd_adds(r, n, &mut upool, true);
+    if r.gen_range(0..100) < 3 {
+        // fill 80..100 % of the 64 KiB with values of large magnitude: five bytes each in the
+        // byte form, which is then longer than 64 KiB
+        let used: usize = adds.iter().map(|a| 8 + a["d"].as_array().unwrap().len() + if a["ty"].as_array().unwrap().len() == 4 { 6 } else { 0 }).sum();
+        let room = 16382usize.saturating_sub(used + 8);
+        if room > 14000 {
+            let len = r.gen_range(13150..=room.min(16370));
+            let ty: Vec<i32> = if r.gen_bool(0.5) { vec![77] } else { rnd_uuid(r, &mut upool) };
+            let d: Vec<i32> = (0..len).map(|_| if r.gen_bool(0.5) { r.gen_range(i32::MIN..-(1 << 27)) } else { r.gen_range((1 << 27)..i32::MAX) }).collect();
+            let pos = r.gen_range(0..=adds.len());
+            adds.insert(pos, json!({"ty": ty, "i": 4242, "d": d}));
+        }
+    }
+    let n = adds.len();
     let n2 = r.gen_range(0..6);
     let adds2 = rnd_adds(r, n2, &mut upool, false);
     let probe = json!([[[3], 0], [rnd_uuid(r, &mut Vec::new()), 0]]);
@@ -1012,7 +1037,11 @@ fn drive_parse(r: &mut StdRng) -> Value {
         }
         _ => {
             // delta: valid / corrupted, applied to the base
-            let osz = if r.gen_bool(0.7) { osz06() } else { json!([]) };
+            let osz = match r.gen_range(0..10) {
+                0..=3 => osz06(),
+                4..=6 => osz06_zero(),
+                _ => json!([]),
+            };
             let oszm = osz_in(&osz);
             let target = rnd_raw(r, n, true, &mut pool);
             let (a, _) = build_raw(&raw_items_in(&Value::Array(base_items.clone())));
